@@ -20,6 +20,7 @@ META = dict(
     configs="3 dataclass definitions: required+defaults+list factory+Optional with a validation hook; keyword-only fields with alias and "
             "dict/list factories; all-defaults with a nested-dataclass factory; 2 construction paths each compared with their data path",
     stubs=[],
-    outside=["class definitions are enumerated (3), not generated"],
+    outside=["quick tier: class definitions are enumerated (10); thorough tier adds 32 definitions drawn from a grammar with VERIF_SEED "
+             "(1-4 fields x 7 field types x default kinds x keyword-only / init=False / alias, tuple layout, kw_only, frozen, rename style)"],
     assumptions=["oracle: the paths against each other and against convert(arg, field type); stdlib nothing"],
 )
